@@ -146,4 +146,16 @@ def load (multi : Bool) (fuel : Nat) (s : Push) : Res Push :=
       else loadLoop multi fuel (s.recv e)
   else loadLoop multi fuel s
 
+/-- the most recently delivered event is StreamEnd -/
+def sawEnd (s : Push) : Bool := match s.out with | e :: _ => e.1 == .streamEnd | [] => false
+
+/-- a consumer of the single-document mode: `load(recv, false)` is called again and again until a
+    call delivers StreamEnd or fails (`calls` bounds the number of calls) -/
+def loadRepeat : Nat → Nat → Push → Res Push
+  | 0, _, _ => .panic .fuel
+  | calls + 1, fuel, s =>
+    match load false fuel s with
+    | .err e => .err e | .panic x => .panic x
+    | .ok s' => if sawEnd s' then .ok s' else loadRepeat calls fuel s'
+
 end SaphyrModel
